@@ -891,6 +891,84 @@ def twin_nodes_case(seed, n=1500):
         b.abort()
 
 
+def twin_inbound_case(seed, n=150):
+    """Two node objects with the same local identity in one process, one connection and one application thread each: both
+    peers send marked application messages at the same time, each fragmented its own way, one application starting to read
+    late.  Each application must receive its own peer's sequence and nothing of the other's."""
+    rng = random.Random(seed)
+    info = {"kind": "twin-inbound", "seed": seed, "n": n}
+    a, b = RealScenario("client"), RealScenario("client")
+    try:
+        a.open()
+        b.open()
+        sides = [{"tag": "A", "sc": a, "base": 0, "got": []}, {"tag": "B", "sc": b, "base": 500000, "got": []}]
+        stop = threading.Event()
+
+        def consumer(side):
+            while len(side["got"]) < n and not stop.is_set():
+                m = side["sc"].node.get_message()
+                if m is None:
+                    break
+                lm = R.decode(m.dump())[0]
+                mk = N.marker_of(lm)
+                side["got"].append(mk if mk is not None else lm.hbh)
+
+        def sender(side, r):
+            stream = b"".join(R.encode(N.app_request(side["base"] + k, size=r.choice([0, 0, 10, 300, 3000]), dest_host=N.LOCAL[0], dest_realm=N.LOCAL[1])) for k in range(1, n + 1))
+            i = 0
+            while i < len(stream):
+                k = r.choice([1, 7, 20, 21, 64, 1000, 4096, 65536])
+                side["sc"].psock.sendall(stream[i:i + k])
+                i += k
+                if r.random() < 0.3:
+                    time.sleep(r.choice([0, 0.0005, 0.002]))
+        late = rng.choice([None, 0, 1])
+        info["late_reader"] = late
+        cons = [threading.Thread(target=consumer, args=(x,), daemon=True, name="consumer_" + x["tag"]) for x in sides]
+        for i, t in enumerate(cons):
+            if late != i:
+                t.start()
+        snd = [threading.Thread(target=sender, args=(x, random.Random(seed * 7 + i)), daemon=True) for i, x in enumerate(sides)]
+        for t in snd:
+            t.start()
+        for t in snd:
+            t.join(a.deadline)
+        if late is not None:
+            time.sleep(0.2)
+            cons[late].start()
+
+        def foreign():
+            return [(x["tag"], g) for x in sides for g in list(x["got"]) if not x["base"] < g <= x["base"] + n]
+        try:
+            a.wait(lambda: foreign() or all(len(x["got"]) >= n for x in sides), "both applications served", a.deadline)
+        except Timeout:
+            pass
+        stop.set()
+        bad = foreign()
+        if bad:
+            info.update(result="violation", key="real-loopback-inbound-delivered-to-another-nodes-application",
+                        detail="two nodes in one process: application %s received message %d of the other node's peer (A got %d, B got %d messages)" % (
+                            bad[0][0], bad[0][1], len(sides[0]["got"]), len(sides[1]["got"])))
+            return info
+        for x in sides:
+            want = list(range(x["base"] + 1, x["base"] + n + 1))
+            if len(x["got"]) < n:
+                info.update(result="timeout", detail="application %s got %d of %d messages" % (x["tag"], len(x["got"]), n))
+                return info
+            if x["got"] != want:
+                info.update(result="violation", key="real-loopback-inbound-sequence-differs", detail="two nodes in one process: application %s received %s..., its peer sent %d..%d" % (
+                    x["tag"], x["got"][:20], want[0], want[-1]))
+                return info
+        info.update(result="ok", delivered=2 * n)
+        return info
+    except Timeout as ex:
+        info.update(result="timeout", detail=str(ex))
+        return info
+    finally:
+        a.abort()
+        b.abort()
+
+
 DEATHS = []
 
 
@@ -903,7 +981,7 @@ def _excepthook(args):
 def run_cases(acc, cases):
     """cases: [{'kind','seed','role',...}] executed one after another; a timeout is retried once, alone, before it counts."""
     threading.excepthook = _excepthook          # uncaught exceptions of the node's threads go into the report, not to stderr
-    fn = {"inbound": inbound_case, "outbound": outbound_case, "lifecycle": lifecycle_case, "base": base_answers_case, "statemachine": statemachine_case, "twins": twin_nodes_case}
+    fn = {"inbound": inbound_case, "outbound": outbound_case, "lifecycle": lifecycle_case, "base": base_answers_case, "statemachine": statemachine_case, "twins": twin_nodes_case, "twin-inbound": twin_inbound_case}
     if any(c["kind"] == "app" for c in cases):
         from . import realapp
         fn["app"] = realapp.app_case
